@@ -922,6 +922,61 @@ func (fr *frame) localEnvAt(h *ssa.BasicBlock, edgeFrom *ssa.BasicBlock, heap *H
 			}
 		}
 	}
+	// a range-over-slice loop rewritten as `for i := 0; i < n; i++`: invariants written for the range
+	// form speak of `rangeindex` (completed iterations - 1); for an index loop that is i - 1
+	if _, have := env["rangeindex"]; !have && fr.isHeader[h] {
+		var cand *ssa.Phi
+		n := 0
+		for _, in := range h.Instrs {
+			phi, ok := in.(*ssa.Phi)
+			if !ok {
+				break
+			}
+			if kindOf(phi.Type()) != KInt || phi.Comment == "rangeindex" {
+				continue
+			}
+			okShape := true
+			sawZero := false
+			for i, e := range phi.Edges {
+				if !fr.loopBody[h][h.Preds[i]] {
+					if c, isC := e.(*ssa.Const); isC && c.Value != nil && c.Int64() == 0 {
+						sawZero = true
+					} else {
+						okShape = false
+					}
+					continue
+				}
+				o, isOp := e.(*ssa.BinOp)
+				if !isOp || o.Op != token.ADD || o.X != ssa.Value(phi) {
+					okShape = false
+					continue
+				}
+				if oc, isC := o.Y.(*ssa.Const); !isC || oc.Value == nil || oc.Int64() != 1 {
+					okShape = false
+				}
+			}
+			if okShape && sawZero {
+				cand = phi
+				n++
+			}
+		}
+		if n == 1 {
+			var val Val
+			var have bool
+			if edgeFrom != nil {
+				for i, pr := range h.Preds {
+					if pr == edgeFrom {
+						val, have = fr.valOK(cand.Edges[i])
+					}
+				}
+			} else {
+				val, have = fr.valOK(cand)
+			}
+			if have && val.K == KInt {
+				env["rangeindex"] = Val{K: KInt, T: val.T, Tm: app("-", val.Tm, "1")}
+			}
+		}
+	}
 	return env
 }
 
@@ -2123,6 +2178,60 @@ func (fr *frame) loopTypeInvariants(h *ssa.BasicBlock, st *bstate, from *ssa.Bas
 			okShape = okShape && sawInit
 			if v, have := fr.valOK(phi); okShape && have && v.K == KInt {
 				f.assume(st, app(">=", v.Tm, "(- 1)"), "range counter is never below -1")
+			}
+		}
+		// any other counter: a header phi whose incoming values are one initial value and the phi itself
+		// plus (minus) a positive constant never goes below (above) its initial value (overflow aside)
+		for _, in := range h.Instrs {
+			phi, ok := in.(*ssa.Phi)
+			if !ok {
+				break
+			}
+			if phi.Comment == "rangeindex" || kindOf(phi.Type()) != KInt {
+				continue
+			}
+			var init ssa.Value
+			dir, okShape := 0, true
+			for i, e := range phi.Edges {
+				pred := h.Preds[i]
+				if !fr.loopBody[h][pred] { // entry edge
+					if init != nil && init != e {
+						okShape = false
+					}
+					init = e
+					continue
+				}
+				o, isOp := e.(*ssa.BinOp)
+				if !isOp || o.X != ssa.Value(phi) || (o.Op != token.ADD && o.Op != token.SUB) {
+					okShape = false
+					break
+				}
+				oc, isC := o.Y.(*ssa.Const)
+				if !isC || oc.Value == nil || oc.Int64() <= 0 {
+					okShape = false
+					break
+				}
+				d := 1
+				if o.Op == token.SUB {
+					d = -1
+				}
+				if dir != 0 && dir != d {
+					okShape = false
+				}
+				dir = d
+			}
+			if !okShape || init == nil || dir == 0 {
+				continue
+			}
+			v, have := fr.valOK(phi)
+			iv, haveI := fr.valOK(init)
+			if !have || !haveI || v.K != KInt || iv.K != KInt {
+				continue
+			}
+			if dir > 0 {
+				f.assume(st, app(">=", v.Tm, iv.Tm), "a counter that only counts up is never below its start")
+			} else {
+				f.assume(st, app("<=", v.Tm, iv.Tm), "a counter that only counts down is never above its start")
 			}
 		}
 	}
